@@ -213,6 +213,16 @@ class Tr:
             e = a - b
             self.st.add_le(e.scale(-1))
             return e
+        if is_call(t, "saturating_sub") and len(t[2]) == 2 and t[1].startswith("core::num::"):
+            # max(a - b, 0): the difference once a >= b is known, 0 once a <= b is known, otherwise an atom bounded from below
+            a, b = self.lin(t[2][0]), self.lin(t[2][1])
+            if self.st.entails_le(b - a):
+                return a - b
+            if self.st.entails_le(a - b):
+                return Lin.const(0)
+            s_ = self.atom(t, 0, None)
+            self.st.add_le(a - b - s_)
+            return s_
         if is_call(t, "len") and len(t[2]) == 1:
             return self.length(t[2][0])
         if k == "un" and t[1] == "PtrMetadata":
@@ -337,9 +347,37 @@ class Tr:
         self.trusted_used.add("L-find: a match of a needle starting with Q cannot begin strictly inside an occurrence of Q that does not overlap itself")
 
     # --- facts from branch conditions
+    def pair_equalities(self, x):
+        """For `(a, b) == (K1, K2)` and `p.checked_sub(q) == Some(K)` (PartialEq::eq / ne against a promoted constant):
+        the list of (Lin, Lin) pairs whose conjunction of equalities the comparison states; None for anything else.
+        (`checked_sub == Some(K)` also says p >= q; with K a constant the equality p - q == K implies it.)"""
+        if not (is_call(x, "eq", "ne") and len(x[2]) == 2 and "PartialEq" in x[1]):
+            return None
+        a, b = look(x[2][0]), look(x[2][1])
+        for l, r in ((a, b), (b, a)):
+            k = r[1] if r[0] == "const" else None
+            if isinstance(k, tuple) and k and k[0] == "inttuple" and l[0] == "tuple" and len(l[1]) == len(k[1]):
+                return [(self.lin(e), Lin.const(v)) for e, v in zip(l[1], k[1])]
+            if isinstance(k, tuple) and k and k[0] == "optint" and k[1] is not None and is_call(l, "checked_sub") and len(l[2]) == 2:
+                return [(self.lin(l[2][0]) - self.lin(l[2][1]), Lin.const(k[1]))]
+        return None
+
     def assume_cond(self, t, c):
         tv = truth(c)
         x = look(t)
+        if x[0] == "bin" and x[1] in ("Eq", "Ne", "Gt", "Lt", "Ge", "Le") and tv is not None:
+            # `a.saturating_sub(b) == 0` is a <= b; `> 0` / `!= 0` is a > b
+            for l, r, op in ((x[2], x[3], x[1]), (x[3], x[2], {"Gt": "Lt", "Lt": "Gt", "Ge": "Le", "Le": "Ge"}.get(x[1], x[1]))):
+                sl = look(l)
+                if is_call(sl, "saturating_sub") and len(sl[2]) == 2 and sl[1].startswith("core::num::") and const_of(r) == 0:
+                    zero = {"Eq": True, "Le": True, "Ne": False, "Gt": False}.get(op)
+                    if zero is not None:
+                        a, b = self.lin(sl[2][0]), self.lin(sl[2][1])
+                        if zero == tv:
+                            self.st.add_le(a - b)
+                        else:
+                            self.st.add_le(b - a + Lin.const(1))
+                        return
         if x[0] == "bin" and x[1] in ("Lt", "Le", "Gt", "Ge", "Eq", "Ne") and tv is not None:
             a, b = self.lin(x[2]), self.lin(x[3])
             op = x[1]
@@ -357,6 +395,15 @@ class Tr:
                 self.st.add_eq(a - b)
             else:
                 self.st.add_ne(a - b)
+            return
+        pe = self.pair_equalities(x)
+        if pe is not None and tv is not None:
+            eq_call = last_seg(x[1]) == "eq"
+            if tv == eq_call:
+                for a, b in pe:
+                    self.st.add_eq(a - b)
+            elif len(pe) == 1:
+                self.st.add_ne(pe[0][0] - pe[0][1])
             return
         if is_call(x, "is_empty") and tv is not None and len(x[2]) == 1:
             L = self.length(x[2][0])
